@@ -374,21 +374,25 @@ theorem roundtrip_MFDeviceSet (acc : MFSettings δ → Bool) (m : MFSettings δ)
     MFDev.construct (α := α) acc (MFDev.toDict m) = .ok m := by
   simp [MFDev.construct, MFDev.bind, MFDev.toDict, firstUnexpected, Dict.keys, mfNamed, Dict.get, bind, Except.bind, pure, Except.pure, ha]
 
-/-- **TwoRatioMFDeviceSet**: the ratios (including the accepted `None`) and the constraint type come back. -/
+/-- **TwoRatioMFDeviceSet**: the ratios and the constraint type come back. -/
 theorem roundtrip_TwoRatioMFDeviceSet (acc : TRSettings α δ → Bool) (t : TRSettings α δ) (ha : acc t = true) :
     TRDev.construct acc (TRDev.toDict t) = .ok t := by
   obtain ⟨⟨dev, flows⟩, ratios, ctype⟩ := t
-  cases ratios <;>
-    simp_all [TRDev.construct, TRDev.toDict, MFDev.bind, MFDev.toDict, firstUnexpected, Dict.keys, trNamed, mfNamed, Dict.get, bind, Except.bind, pure, Except.pure]
+  simp_all [TRDev.construct, TRDev.toDict, MFDev.bind, MFDev.toDict, firstUnexpected, Dict.keys, trNamed, mfNamed, Dict.get, bind, Except.bind, pure, Except.pure]
 
 /-- a dump that omits a required argument is refused — the shape of the "omit 'ratios'" mutant. -/
 theorem TwoRatio_requires_ratios (acc : TRSettings α δ → Bool) (m : MFSettings δ) :
     TRDev.construct (α := α) acc (MFDev.toDict m ++ [("constraint_type", .str "eq")]) = .error (.missing "ratios") := by
   simp [TRDev.construct, MFDev.bind, MFDev.toDict, firstUnexpected, Dict.keys, trNamed, mfNamed, Dict.get, bind, Except.bind, throw, throwThe, MonadExceptOf.throw, pure, Except.pure]
 
+/-- `ratios=None` is refused by the constructor as the code is now (ValueError), so no dump can carry it. -/
+theorem TwoRatio_rejects_none (acc : TRSettings α δ → Bool) (m : MFSettings δ) :
+    TRDev.construct (α := α) acc (MFDev.toDict m ++ [("ratios", .none)]) = .error .rejected := by
+  simp [TRDev.construct, MFDev.bind, MFDev.toDict, firstUnexpected, Dict.keys, trNamed, mfNamed, Dict.get, bind, Except.bind, throw, throwThe, MonadExceptOf.throw, pure, Except.pure]
+
 example : TRDev.construct (α := Int) (δ := Nat) (fun _ => true)
     [("device", .obj 3), ("flows", .strs ["e", "h"]), ("ratios", .vec [1, 2]), ("constraint_type", .str "ineq")]
-    = .ok { mf := { device := 3, flows := ["e", "h"] }, ratios := some [1, 2], ctype := "ineq" } := rfl
+    = .ok { mf := { device := 3, flows := ["e", "h"] }, ratios := [1, 2], ctype := "ineq" } := rfl
 
 example : SubDev.construct (α := Int) (δ := Nat) id (fun _ => true)
     [("id", .str "sb"), ("devices", .objs [3, 3]), ("sbounds", .pairNum 0 5), ("labels", .strs ["e"]), ("sign", .num (-1))]
